@@ -1056,6 +1056,10 @@ func (agg *aggregate) Process(ctx context.Context, man gdbi.Manager, in gdbi.InP
 						c++
 					}
 				}
+				if len(fieldValues) == 0 {
+					// no numeric value reached the aggregation: no buckets
+					return outErr
+				}
 				sort.Float64s(fieldValues)
 				min := fieldValues[0]
 				max := fieldValues[len(fieldValues)-1]
